@@ -26,27 +26,30 @@ CO_ASSUME = [
 ]
 
 PROPS = {
-    "C01": dict(monitor="C01", proj="C01", modules=["C01", "C01seq", "C01g", "C01nest", "C01live", "C01live2", "C01live3", "C01live4", "C01liveAny", "C01liveG", "C01liveGAny", "C01liveN", "C01liveNAny", "C01state"], monitors=["C01", "LV"], cfgs=ALL3V, ks=True, quick=900, thorough=12000,
+    "C01": dict(ktie=["Std", "Dir"], monitor="C01", proj="C01", modules=["C01", "C01seq", "C01g", "C01nest", "C01live", "C01live2", "C01live3", "C01live4", "C01liveAny", "C01liveG", "C01liveGAny", "C01liveN", "C01liveNAny", "C01state", "C01liveGMix"], monitors=["C01", "LV"], cfgs=ALL3V, ks=True, quick=900, thorough=12000,
                 gens=[(GROUPS, "exh", 0.3), (["join", "try_join", "merge", "zip"] + GROUPS, "mt", 0.3), (ALL_FIXED, "drain", 0.5), (GROUPS, "drain", 0.3), (["join", "try_join", "race", "race_ok", "merge", "zip", "chain"], "exh", 0.4), (["nest"], "random", 0.35), (["nest"], "stuck", 0.1), (ALL_FIXED, "random", 1.0), (GROUPS, "random", 0.4), (GROUPS, "refill", 0.3), (CONC, "stuck", 0.3),
-                      (["join", "try_join", "merge", "zip", "race", "chain"], "big", 0.05),
+                      (["join", "try_join", "merge", "zip", "race", "race_ok", "chain"], "big", 0.05), (GROUPS, "big", 0.08),
                       (["join", "try_join", "merge", "zip"], "waves", 0.08)],
                 assumptions=COMMON_ASSUME),
-    "C02": dict(monitor="C02", proj="C02", modules=["C02a", "C02b", "C02g", "C02nest"], ps=True, cfgs=ALL3, quick=900, thorough=12000,
-                gens=[(GROUPS, "exh", 0.3), (["join", "try_join", "race", "race_ok", "merge", "zip", "chain"], "exh", 0.4), (ALL_FIXED, "random", 1.0), (GROUPS, "random", 0.4), (ALL_FIXED + GROUPS, "panic", 0.5),
+    "C02": dict(monitor="C02", proj="C02", modules=["C02a", "C02b", "C02g", "C02nest", "C02co"], ps=True, cfgs=ALL3 + ["std-co", "alloc-co"], quick=900, thorough=12000,
+                gens=[(["co"], "random", 1.5), (["co"], "errs", 0.7), (["co"], "stuck", 0.5), (GROUPS, "exh", 0.3), (["join", "try_join", "race", "race_ok", "merge", "zip", "chain"], "exh", 0.4), (ALL_FIXED, "random", 1.0), (GROUPS, "random", 0.4), (ALL_FIXED + GROUPS, "panic", 0.5),
                       (["join", "try_join", "race_ok", "zip"], "big", 0.05)],
                 assumptions=COMMON_ASSUME + ["memory effects of unsafe code are outside the model; the model "
                                              "shows the bookkeeping never asks for a second drop"]),
     "C03": dict(monitor="C03", proj="C03", modules=["C03", "C03g", "C03nest"], ps=True, cfgs=ALL3, quick=900, thorough=12000,
-                gens=[(GROUPS, "exh", 0.3), (["join", "try_join", "race", "race_ok", "merge", "zip", "chain"], "exh", 0.4), (["nest"], "random", 0.2), (ALL_FIXED, "random", 1.0), (GROUPS, "random", 0.5), (GROUPS, "refill", 0.3), (CONC, "stuck", 0.2)],
+                gens=[(GROUPS, "exh", 0.3), (["join", "try_join", "race", "race_ok", "merge", "zip", "chain"], "exh", 0.4), (["nest"], "random", 0.2), (ALL_FIXED, "random", 1.0), (GROUPS, "random", 0.5), (GROUPS, "refill", 0.3), (CONC, "stuck", 0.2),
+                      (["join", "try_join", "race", "race_ok", "merge", "zip", "chain"] + GROUPS, "big", 0.06)],
                 assumptions=COMMON_ASSUME),
-    "C16": dict(monitor="C16", proj="C16", modules=["C16", "C16g"], cfgs=["std", "stdv"], ks=True, quick=2500, thorough=30000,
+    "C16": dict(ktie=["Std"], monitor="C16", proj="C16", modules=["C16", "C16g", "C16nest"], cfgs=["std", "stdv"], ks=True, quick=2500, thorough=30000,
                 gens=[(GROUPS, "exh", 0.4), (TRACKED + GROUPS, "mt", 0.3), (["join", "try_join", "merge", "zip"], "exh", 0.5), (TRACKED, "random", 1.0), (GROUPS, "random", 0.5), (GROUPS, "refill", 0.3), (TRACKED, "stuck", 0.3),
                       (["join", "try_join", "merge", "zip"], "big", 0.05)],
                 assumptions=COMMON_ASSUME),
-    "C20": dict(monitors=["C20", "LV"], monitor="C20", proj="C20", modules=["C20", "C20g", "C20live", "C20liveG"], cfgs=ALL3V, ks=True, quick=900, thorough=12000,
-                gens=[(GROUPS, "exh", 0.3), (["join", "try_join", "merge", "zip"] + GROUPS, "mt", 0.3), (CONC, "drain", 0.5), (GROUPS, "drain", 0.3), (["join", "try_join", "race", "race_ok", "merge", "zip"], "exh", 0.4), (CONC, "random", 1.0), (GROUPS, "random", 0.5), (GROUPS, "refill", 0.5), (CONC + GROUPS, "stuck", 0.6)],
+    "C20": dict(ktie=["Std", "Dir"], monitors=["C20", "LV"], monitor="C20", proj="C20", modules=["C20", "C20g", "C20live", "C20liveG", "C20nest"], cfgs=ALL3V, ks=True, quick=900, thorough=12000,
+                gens=[(GROUPS, "exh", 0.3), (["join", "try_join", "merge", "zip"] + GROUPS, "mt", 0.3), (CONC, "drain", 0.5), (GROUPS, "drain", 0.3), (["join", "try_join", "race", "race_ok", "merge", "zip"], "exh", 0.4), (CONC, "random", 1.0), (GROUPS, "random", 0.5), (GROUPS, "refill", 0.5), (CONC + GROUPS, "stuck", 0.6),
+                      # wide containers (more children than any per-poll budget / bit block), nobody ready on the first poll
+                      (CONC, "big", 0.1), (GROUPS, "big", 0.15)],
                 assumptions=COMMON_ASSUME),
-    "C04": dict(monitors=["C04", "NP", "LV"], monitor="C04", modules=["C04", "C04state", "C01"], proj="FUN", ps=True, cfgs=ALL3, quick=1500, thorough=20000,
+    "C04": dict(ktie=["PS"], monitors=["C04", "NP", "LV"], monitor="C04", modules=["C04", "C04state", "C01"], proj="FUN", ps=True, cfgs=ALL3, quick=1500, thorough=20000,
                 gens=[(["join"], "mt", 0.3), (["join"], "drain", 0.5), (["join"], "exh", 1.0), (["join"], "random", 1.0), (["join"], "stuck", 0.3), (["join"], "panic", 0.2),
                       (["join"], "big", 0.08), (["join"], "waves", 0.25)],
                 assumptions=COMMON_ASSUME),
@@ -56,7 +59,7 @@ PROPS = {
                 assumptions=COMMON_ASSUME),
     "C06": dict(monitors=["C06", "NP", "LV"], monitor="C06", modules=["C06", "C01"], proj="C03", cfgs=ALL3, quick=1500, thorough=20000,
                 gens=[(["race"], "drain", 0.5), (["race"], "exh", 1.0), (["race"], "random", 1.0), (["race"], "stuck", 0.4), (["race"], "panic", 0.2),
-                      (["race"], "big", 0.08)],
+                      (["race"], "big", 0.2)],
                 assumptions=COMMON_ASSUME + ["racing zero futures is outside C06 (the real code divides by zero in "
                                              "Indexer::iter); the generator uses n >= 1"]),
     "C07": dict(monitors=["C07", "NP", "LV"], monitor="C07", modules=["C07", "C01"], proj="FUN", cfgs=ALL3, quick=1500, thorough=20000,
@@ -80,15 +83,15 @@ PROPS = {
                 gens=[(["chain"], "drain", 0.5), (["chain"], "exh", 1.0), (["chain"], "random", 1.0), (["chain"], "fair", 0.4), (["chain"], "stuck", 0.2),
                       (["chain"], "panic", 0.2), (["chain"], "big", 0.08)],
                 assumptions=COMMON_ASSUME),
-    "C17": dict(monitors=["C17", "NP", "LV"], monitor="C17", modules=["C17", "C01"], proj="FUN", cfgs=ALL3, quick=2500, thorough=30000,
+    "C17": dict(ktie=["Idx"], monitors=["C17", "NP", "LV"], monitor="C17", modules=["C17", "C01"], proj="FUN", cfgs=ALL3, quick=2500, thorough=30000,
                 gens=[(["merge"], "mt-fair", 0.5), (["merge"], "mt", 0.2), (["merge"], "drain", 0.3), (["merge"], "exh", 0.5), (["merge"], "fair", 1.0), (["merge"], "random", 0.5), (["merge"], "stuck", 0.2)],
                 assumptions=COMMON_ASSUME),
-    "C11": dict(monitors=["C11", "NP", "LV"], monitor="C11", modules=["C11", "C01g"], proj="GRP", cfgs=["std", "alloc", "stdv"], ks=True, quick=3000, thorough=40000,
+    "C11": dict(ktie=["Grp"], monitors=["C11", "NP", "LV"], monitor="C11", modules=["C11", "C01g"], proj="GRP", cfgs=["std", "alloc", "stdv"], ks=True, quick=3000, thorough=40000,
                 gens=[(["fgroup"], "exh", 1.0), (["fgroup"], "mt", 0.2), (["fgroup"], "random", 1.0), (["fgroup"], "big", 0.5), (["fgroup"], "stuck", 0.3),
                       (["fgroup"], "panic", 0.2), (["fgroup"], "refill", 0.5), (["fgroup"], "drain", 0.5)],
                 assumptions=COMMON_ASSUME + ["every inserted future is a new object (Case.insertsFresh) of the right "
                                              "kind (Case.kindOk)"]),
-    "C12": dict(monitors=["C12", "NP", "LV"], monitor="C12", modules=["C12", "C01g"], proj="GRP", cfgs=["std", "alloc", "stdv"], ks=True, quick=3000, thorough=40000,
+    "C12": dict(ktie=["Grp"], monitors=["C12", "NP", "LV"], monitor="C12", modules=["C12", "C01g"], proj="GRP", cfgs=["std", "alloc", "stdv"], ks=True, quick=3000, thorough=40000,
                 gens=[(["sgroup"], "exh", 1.0), (["sgroup"], "mt", 0.2), (["sgroup"], "random", 1.0), (["sgroup"], "big", 0.5), (["sgroup"], "stuck", 0.3),
                       (["sgroup"], "panic", 0.2), (["sgroup"], "refill", 0.5), (["sgroup"], "drain", 0.5)],
                 assumptions=COMMON_ASSUME + ["every inserted stream is a new object (Case.insertsFresh) of the right "
